@@ -597,9 +597,31 @@ class Backend(ABC):
     ) -> Any:
         """Conversion of query expressions without field association."""
 
+    def convert_condition_val_expansion(
+        self, cond: ConditionValueExpression, state: ConversionState
+    ) -> Any:
+        """
+        Convert each value of the expansion as value-only condition and OR-link all converted
+        subconditions (counterpart of convert_condition_field_eq_expansion for unbound values).
+        """
+        expansion = cast(SigmaExpansion, cond.value)
+        or_cond = ConditionOR(
+            [ConditionValueExpression(value) for value in expansion.values],
+            cond.source,
+        )
+        return self.convert_condition_or(or_cond, state)
+
     def convert_condition_val(self, cond: ConditionValueExpression, state: ConversionState) -> Any:
         """Conversion of value-only conditions."""
         match cond.value:
+            case SigmaExpansion():
+                return self.convert_condition_val_expansion(cond, state)
+            case SigmaCasedString():
+                # there is no case-sensitive form of value-only expressions: converting the value
+                # like a plain string would silently make the query case-insensitive
+                raise NotImplementedError(
+                    "Case-sensitive values without a field name are not supported by the backend."
+                )
             case SigmaString():
                 return self.convert_condition_val_str(cond, state)
             case SigmaNumber():
